@@ -816,6 +816,7 @@ fn main() {
                         let mut cache = Cache::default();
                         let mut recs: Vec<Value> = Vec::new();
                         let mut stats: BTreeMap<String, u64> = BTreeMap::new();
+                        let mut done: Vec<u64> = Vec::new();
                         for c in chunk {
                             if t0.elapsed().as_secs() > budget {
                                 *stats.entry("skipped_budget".into()).or_default() += 1;
@@ -826,6 +827,9 @@ fn main() {
                             let o = run_scenario(u, &sc);
                             *stats.entry(format!("result:{}", o.result)).or_default() += 1;
                             *stats.entry("evaluations".into()).or_default() += 1;
+                            if let Some(i) = c["_i"].as_u64() {
+                                done.push(i);
+                            }
                             if o.before != o.after {
                                 *stats.entry("changed".into()).or_default() += 1;
                             }
@@ -851,14 +855,16 @@ fn main() {
                                 recs.push(json!({"ok": true, "drift": "events", "case": c, "outcome": outcome_json(&o)}));
                             }
                         }
-                        (recs, stats)
+                        (recs, stats, done)
                     })
                 })
                 .collect();
             let mut o = Out::create(&out);
             let mut total: BTreeMap<String, u64> = BTreeMap::new();
+            let mut done_ids: Vec<u64> = Vec::new();
             for h in handles {
-                let (recs, stats) = h.join().unwrap_or_else(|_| fatal("worker thread panicked"));
+                let (recs, stats, done) = h.join().unwrap_or_else(|_| fatal("worker thread panicked"));
+                done_ids.extend(done);
                 for r in recs {
                     o.emit(&r);
                 }
@@ -866,7 +872,8 @@ fn main() {
                     *total.entry(k).or_default() += v;
                 }
             }
-            o.emit(&json!({"summary": true, "stats": total}));
+            done_ids.sort();
+            o.emit(&json!({"summary": true, "stats": total, "done": done_ids}));
             o.finish();
         }
         // ---------------------------------------------------------------- implementation -> spec
